@@ -5,6 +5,9 @@
 #include "ops.h"
 #include "oracle_bu.h"
 
+#ifndef NCASES
+#define NCASES CASES_PER_QUERY
+#endif
 #ifndef ORACLE_LEVEL
 #define ORACLE_LEVEL 2
 #endif
@@ -14,7 +17,7 @@ static __attribute__((noinline)) void do_case(unsigned i) {
   TopologyKernel m;
   set_mode(m, mode);
   build_base(m, base);
-  unsigned sel_idx = chunk * CASES_PER_QUERY + i;
+  unsigned sel_idx = chunk * NCASES + i;
   unsigned idx1 = which == 0 ? sel_idx : fixed, idx2 = which == 0 ? fixed : sel_idx;
   unsigned a, b;
   if (idx1 >= op_arity_count(m, op1)) { v_witness("C01 case outside the op's argument space"); return; }
@@ -34,6 +37,6 @@ static __attribute__((noinline)) void do_case(unsigned i) {
 
 extern "C" void harness_c01() {
   unsigned sel = v_nondet_u32();
-  v_assume(sel < CASES_PER_QUERY);
-  dispatch<Case, CASES_PER_QUERY>(sel);
+  v_assume(sel < NCASES);
+  dispatch<Case, NCASES>(sel);
 }
